@@ -24,6 +24,7 @@ import GgrsModel.Proofs.DelayStep
 import GgrsModel.Proofs.EntryPoint
 import GgrsModel.Proofs.DropGame
 import GgrsModel.Proofs.EntryDrop
+import GgrsModel.Proofs.PollCore
 
 namespace Ggrs.SyncLayer
 
@@ -207,5 +208,23 @@ theorem C02_entry_point_drops {G : Type} (step : G → List (Input × InputStatu
       (by simp [List.map_map, Function.comp_def])
     rw [hn] at hg hchk
     exact ⟨c, c', hg, hchk, by rw [hcur, hc3.sync]⟩
+
+/-- **The poll in front of the entry point (every state).** `advance_frame` is
+`poll_remote_clients` followed by `advance_frame_core`. Whatever messages arrive, the poll changes
+the core of the session — sync layer, queues, connection statuses, disconnect frame: everything the
+session theorems are about — only by running `handle_event`, in order, on the events its endpoints
+raised; of those, only Input events (the `remoteInput` step of the worlds) and Disconnected events
+(the `dropEvent` step) touch the core at all (`handleEventCore_other`). So a call of
+`advance_frame` is: network-only changes, arrival and drop steps, then `advance_frame_core`
+(`C02_entry_point`, `C02_entry_point_drops`). That the events satisfy the side conditions of those
+steps (a remote player's handle, a non-negative frame, the endpoint's players) is what the
+endpoint theorems (C05_stream_intact, C12_event_language) and trace acceptance provide; it is not
+derived here. -/
+theorem C02_poll_core (s s' : P2P) (now : Nat) (received : List (Nat × Msg))
+    (h : s.pollRemoteClients now received = .ok s') :
+    ∃ (s0 s1 : P2P) (evs : List (ProtoEvent × List Nat × Nat)), P2P.SameCore s s0 ∧
+      evs.foldlM (fun s (x : ProtoEvent × List Nat × Nat) => s.handleEvent now x.1 x.2.1 x.2.2) s0 = .ok s1 ∧
+      P2P.SameCore s1 s' :=
+  P2P.poll_core s s' now received h
 
 end Ggrs
